@@ -1,0 +1,125 @@
+//go:build verif
+
+package headers
+
+import (
+	"context"
+	"crypto/sha256"
+	"fmt"
+	"sort"
+	"strings"
+
+	"github.com/tokenized/pkg/bitcoin"
+	"github.com/tokenized/pkg/storage"
+)
+
+// This file only exists under the "verif" build tag. It exposes internal state and parameterised
+// entry points to the verification machinery in /verif. It adds no behaviour to normal builds.
+
+// VerifDump returns a canonical, deterministic description of the complete in-memory state of the
+// repository. Two repositories with the same dump (and the same storage image) behave identically.
+func (repo *Repository) VerifDump() string {
+	repo.Lock()
+	defer repo.Unlock()
+
+	sb := &strings.Builder{}
+	index := func(b *Branch) int {
+		for i, o := range repo.branches {
+			if o == b {
+				return i
+			}
+		}
+		return -1
+	}
+
+	fmt.Fprintf(sb, "longest=%d diff=%t split=%t\n", index(repo.longest), repo.disableDifficulty,
+		repo.disableSplitProtection)
+	for i, b := range repo.branches {
+		parent := -2 // no parent
+		if b.parent != nil {
+			parent = index(b.parent) // -1 when the parent is not in the list (detached)
+		}
+		fmt.Fprintf(sb, "b%d parent=%d ph=%d off=%d first=%s n=%d\n", i, parent, b.parentHeight,
+			b.offset, b.firstHeader.BlockHash(), len(b.headers))
+		for _, h := range b.headers {
+			fmt.Fprintf(sb, " h %s %s\n", h.Hash, h.AccumulatedWork.Text(16))
+		}
+		fmt.Fprintf(sb, " map %s\n", verifDumpHeights(b.heightsMap))
+	}
+	if index(repo.longest) == -1 && repo.longest != nil {
+		fmt.Fprintf(sb, "longest-detached first=%s n=%d\n", repo.longest.firstHeader.BlockHash(),
+			len(repo.longest.headers))
+	}
+	fmt.Fprintf(sb, "heights %s\n", verifDumpHeights(repo.heights))
+	for _, h := range repo.invalidHashes {
+		fmt.Fprintf(sb, "invalid %s\n", h)
+	}
+	return sb.String()
+}
+
+func verifDumpHeights(m map[bitcoin.Hash32]int) string {
+	list := make([]string, 0, len(m))
+	for h, height := range m {
+		list = append(list, fmt.Sprintf("%s:%d", h, height))
+	}
+	sort.Strings(list)
+	if len(list) > 64 {
+		// Large maps (base chains) are summarised by a digest to keep the dump small.
+		sum := sha256.Sum256([]byte(strings.Join(list, ",")))
+		return fmt.Sprintf("#%d:%x", len(list), sum[:8])
+	}
+	return strings.Join(list, ",")
+}
+
+// VerifBranchCount returns the number of in-memory branches.
+func (repo *Repository) VerifBranchCount() int {
+	repo.Lock()
+	defer repo.Unlock()
+	return len(repo.branches)
+}
+
+// VerifClean performs exactly the steps of clean with a caller-chosen prune depth so that pruning
+// is reachable in small histories. VerifClean(ctx, 10000) must be equivalent to Clean(ctx); the
+// verification machinery checks that equivalence differentially.
+func (repo *Repository) VerifClean(ctx context.Context, depth int) error {
+	repo.Lock()
+	defer repo.Unlock()
+
+	if err := repo.consolidate(ctx); err != nil {
+		return err
+	}
+	if err := repo.saveMainBranch(ctx); err != nil {
+		return err
+	}
+	if err := repo.prune(ctx, depth); err != nil {
+		return err
+	}
+	if err := saveInvalidHashes(ctx, repo.store, repo.invalidHashes); err != nil {
+		return err
+	}
+	return nil
+}
+
+// VerifLoad is Load with a caller-chosen prune depth.
+func (repo *Repository) VerifLoad(ctx context.Context, depth int) error {
+	repo.Lock()
+	defer repo.Unlock()
+
+	return repo.load(ctx, depth)
+}
+
+// VerifSetSplits replaces the chain split table (and the required split) so that split handling
+// can be exercised at small heights.
+func (repo *Repository) VerifSetSplits(splits Splits, required *Split) {
+	repo.Lock()
+	defer repo.Unlock()
+
+	repo.splits = append(Splits{}, splits...)
+	sort.Sort(repo.splits)
+	repo.requiredSplit = required
+}
+
+// VerifStore returns the storage the repository was created with.
+func (repo *Repository) VerifStore() storage.Storage {
+	return repo.store
+}
